@@ -21,7 +21,7 @@ ASSUMPTIONS = [
 ]
 MIN_NONTRIVIAL = {"quick": 100, "thorough": 1000}
 REQUIRED = {"quick": {"relations_checked": 900, "format_comparisons": 30, "full_rank_distance_checks": 30, "refit_relations": 100, "jit_relations_checked": 300, "bigbatch_relations": 8, "truncated_rows": 30, "big_generator_fits": 1},
-            "thorough": {"relations_checked": 9000, "format_comparisons": 400, "full_rank_distance_checks": 400, "refit_relations": 1000, "jit_relations_checked": 3000, "bigbatch_relations": 80, "truncated_rows": 300, "big_generator_fits": 4}}
+            "thorough": {"relations_checked": 9000, "format_comparisons": 400, "full_rank_distance_checks": 400, "refit_relations": 1000, "jit_relations_checked": 3000, "bigbatch_relations": 80, "truncated_rows": 300, "big_generator_fits": 2}}
 
 
 def plan(tier, seed):
@@ -315,7 +315,7 @@ def check_big_generator(ctx, c):
 
 def run(ctx):
     if ctx.mode != "PY" and ctx.shard % 4 == 3:
-        for i in range(ctx.pick(1, 5)):
+        for i in range(ctx.pick(1, 2)):
             r = ctx.rng("biggen", i)
             check_big_generator(ctx, {"biggen": True, "n": r.choice([600, 700, 900]), "metric": r.choice(["cosine", "euclidean"]), "memory_size": r.choice(["20k", "24k"]), "seed": r.randrange(10**6)})
     n = ctx.pick(80, 900) if ctx.mode == "JIT" else ctx.pick(120, 900)
